@@ -1363,6 +1363,13 @@ fn typed_for(rng: &mut Rng) -> TypedOp {
 }
 
 pub fn gen_c01(out: &mut Out, rng: &mut Rng, thorough: bool) {
+    // every typed method at the sizes where a convenience path could differ (0, 1, a byte
+    // boundary, the maximum)
+    for kind in ["tcp", "rtu"] {
+        for (op, _) in super::netgen::typed_boundary_ops(rng) {
+            monitor_line(out, &format!("cli {kind} {} | typed {}", hex8(rng.u8()), op.tok()));
+        }
+    }
     let n = if thorough { 100_000 } else { 5_000 };
     for i in 0..n {
         let kind = if i % 2 == 0 { "tcp" } else { "rtu" };
